@@ -63,6 +63,7 @@ type Contract struct {
 	AtCalls  map[string][]GhostStmt
 	Ghosts   []GhostDecl
 	Safety   bool // generate runtime-panic obligations
+	SafetyOff map[string]bool // kinds of runtime-panic obligations not generated (permitted exits)
 	MayPanic bool // explicit panics are a permitted exit (default true)
 	File     string
 	Line     int
@@ -460,7 +461,16 @@ func (sp *Specs) loadSpecFile(path, pkgPath string) error {
 		case "noreturn":
 			cur.NoReturn = true
 		case "nosafety":
-			cur.Safety = false
+			if rest == "" {
+				cur.Safety = false
+			} else {
+				if cur.SafetyOff == nil {
+					cur.SafetyOff = map[string]bool{}
+				}
+				for _, k := range strings.Fields(rest) {
+					cur.SafetyOff[k] = true
+				}
+			}
 		case "nopanic":
 			cur.MayPanic = false
 		case "noterm":
